@@ -119,7 +119,7 @@ XRUN_EFFECTS = {'suite': 'effects', 'claim': 'analyze(ops) == union of the effec
                 'bound': 'every program of <= 2 ops (a third of those with 3; thorough: all) over 64 ops: the 6 effectful ops, Pop, pushes carrying every effect opcode and the Push opcode at each of the 8 immediate positions; '
                          'all 64 effect sets for <= 2 ops, 17 sets for 3; k in {0,1,5,6,7,8,12,40} repetitions of one effectful op followed by another'}
 PROPS = {
-    'C05': {'level': 'proof', 'verus_units': ['vm_core'], 'xrun': [XRUN_VMOPS], 'kani': [KANI_VM_OPS_ALL],
+    'C05': {'level': 'proof', 'verus_units': ['vm_core'], 'xrun': [XRUN_VMOPS, XRUN_COMPUTE, XRUN_BYTECODE], 'kani': [KANI_VM_OPS_ALL],
             'probes': [{'name': 'probe-breadth', 'input': 'ops [Push(2^40), Compute, ComputeEnd], gas limit 1000, op cost 1',
                         'claim': 'a Compute whose breadth is far beyond what the gas limit can pay for returns a typed error or success; it does not exhaust memory or time',
                         'bound': 'one input, run under a 3 GB address-space limit and a 20 s time limit'}],
@@ -129,7 +129,7 @@ PROPS = {
             'explanation': 'per-op functional contracts against spec functions written from asm.yml'},
     'C09': {'level': 'proof', 'verus_units': ['vm_core'], 'xrun': [XRUN_VMOPS], 'kani': [KANI_VM_OPS_CF],
             'explanation': 'control flow / repeat / eval contracts'},
-    'C07': {'level': 'proof', 'verus_units': ['vm_core'], 'xrun': [XRUN_VMOPS],
+    'C07': {'level': 'proof', 'verus_units': ['vm_core'], 'xrun': [XRUN_VMOPS, XRUN_COMPUTE],
             'explanation': 'Vm::exec loop invariant over a ghost trace of visited pcs and child gas: exact sum, <= limit, no overflow, out-of-gas raised before step_op, termination variant for positive costs'},
     'C11': {'level': 'proof', 'verus_units': ['vm_core'], 'xrun': [XRUN_VMOPS],
             'explanation': 'state-read ops: operand popping, view/contract routing, memory layout (layout_k), frame'},
